@@ -1249,6 +1249,13 @@ def class_runs(run, tier, seed, flagsets, nrand=None):
                 ([0x130], [], [], False, True), ([], [], ["Lu"], False, True)]
     for _ in range(n):
         classes.append(c15_class(rng))
+    # spellings with a dash next to a range, at the ends, after an escape: (text, chars, ranges) given explicitly
+    spelled = [("[_a-c-e]", [95, 45, 101], [97, 99]), ("[xa-c-e]", [120, 45, 101], [97, 99]), ("[^xa-c-e]", [120, 45, 101], [97, 99]),
+               ("[a-c-e]", [45, 101], [97, 99]), ("[a-z0-9-_]", [45, 95], [97, 122, 48, 57]), ("[-a]", [45, 97], []), ("[a-]", [97, 45], []),
+               ("[_a-c-e]i", [95, 45, 101], [97, 99]), ("[a-c_-]", [95, 45], [97, 99]), ("[\\x2da-c]", [45], [97, 99]), ("[+--]", [], [43, 45]),
+               ("[--0]", [], [45, 48]), ("[_a-cd-f-h]", [95, 45, 104], [97, 99, 100, 102])]
+    for (txt, chars, rngs) in spelled:
+        classes.append((chars, rngs, [], txt.startswith("[^"), txt.endswith("i"), txt))
     groups = []
     ucl_names = []
 
@@ -1256,9 +1263,10 @@ def class_runs(run, tier, seed, flagsets, nrand=None):
         if u not in ucl_names:
             ucl_names.append(u)
         return ucl_names.index(u) + 1
-    for i, (chars, rngs, ucl, inv, ic) in enumerate(classes):
+    for i, cl_ in enumerate(classes):
+        chars, rngs, ucl, inv, ic = cl_[:5]
         g = Gram(i + 1)
-        txt = c15_text(chars, rngs, ucl, inv, ic)
+        txt = cl_[5] if len(cl_) > 5 else c15_text(chars, rngs, ucl, inv, ic)
         g.rules = [g.mk(k="cls", s=list(chars), rng=list(rngs), inv=inv, ic=ic, want=list(txt.encode()), ucl=[ucl_ix(u) for u in ucl])]
         g.disp = [""]
         g.compute_args()
@@ -1300,8 +1308,8 @@ def class_meaning(run, tier, seed, classes, groups, inputs, options, variants, u
             runes |= {ord(ch) for ch in bytes(inp).decode("utf-8")}
         except UnicodeDecodeError:
             pass
-    for (chars, rngs, ucl, inv, ic) in classes:
-        runes |= set(chars) | set(rngs)
+    for cl_ in classes:
+        runes |= set(cl_[0]) | set(cl_[1])
     runes.add(0xFFFD)
     ut = unitab(sorted(runes), ucl_names)
     gp = os.path.join(P.workdir(), "classgroups.ndjson")
@@ -1391,6 +1399,16 @@ def c04_groups(seed, tier):
     sh = [("lit", (F.A,), False), ("any",)]
     for t in [("shadow", a, b, c) for a in sh for b in sh for c in sh] + [("shadow", a, b, ("lit", (), False), ("pred", False, "true")) for a in sh for b in sh]:
         groups += F.groups_from_trees([t], gi0=len(groups) + 1)
+    # state blocks that only occur under a predicate (directly, or in a helper rule that is only used under one): the state
+    # runtime is still needed by the emitted blocks, whatever the flags
+    for k_ in range(6):
+        g = Gram(len(groups) + 1)
+        st_ = lambda: g.seq([g.state("set", "x", 1), g.lit([F.A])])
+        if k_ < 3:
+            g.rules = [g.action(g.seq([g.un(["and", "not", "and"][k_], st_() if k_ < 2 else g.seq([g.un("not", st_()), g.any()])), g.un("star", g.any())]))]
+        else:
+            g.rules = [g.action(g.seq([g.un(["and", "not", "not"][k_ - 3], g.ref(2)), g.un("star", g.any())])), st_() if k_ < 5 else g.choice([st_(), g.lit([F.B])])]
+        add(g)
     cfg2 = F.RandCfg(depth=4, maxrules=3, preds=True, throw=True)
     nostate = []
     for i in range(15 if tier == "quick" else 60):
